@@ -390,6 +390,7 @@ func Run(r *evid.Run) {
 	product(r)
 	reorderStress(r)
 	wideObjects(r)
+	siblingObjects(r)
 	deepTexts(r)
 }
 
@@ -609,4 +610,74 @@ func wideObjects(r *evid.Run) {
 		}
 	})
 	r.Bound("wide objects: N in %v members (short and 16-byte names) with a duplicate at ordered pairs (i,j) x 4 configurations x {Format, AppendFormat, Canonicalize}", ns)
+}
+
+// siblingObjects: objects whose names are few but long (the name index switches representation on total name
+// bytes as well as on member count) followed by sibling objects at the same depth - and by later, separate
+// calls - that use the same names again: once each (valid) or twice (duplicate).
+func siblingObjects(r *evid.Run) {
+	counts := []int{1, 2, 3, 4, 8}
+	lens := []int{100, 250, 255, 256, 257, 340, 341, 342, 400, 511, 512, 513, 1023, 1024, 1025}
+	if r.Tier == "thorough" {
+		counts = []int{1, 2, 3, 4, 5, 6, 7, 8, 16, 32}
+		for l := 90; l <= 110; l++ {
+			lens = append(lens, l)
+		}
+		for l := 120; l <= 1100; l += 7 {
+			lens = append(lens, l)
+		}
+	}
+	cfgs := []cfgReal{mk(fmtcfg.Cfg{}), mk(fmtcfg.Cfg{On: fmtcfg.Reorder}), mk(fmtcfg.Cfg{On: fmtcfg.AllowDup}), mk(fmtcfg.Cfg{On: fmtcfg.Multiline | fmtcfg.CanonInts})}
+	type unit struct{ k, l int }
+	var units []unit
+	for _, k := range counts {
+		for _, l := range lens {
+			units = append(units, unit{k, l})
+		}
+	}
+	enum.Parallel(r, len(units), func(w *enum.Worker) func(int) {
+		c := &checker{out: map[string]int64{}}
+		w.Describe = func() any { return c.cur }
+		w.Done = func() { r.Outcomes(c.out) }
+		return func(u int) {
+			k, l := units[u].k, units[u].l
+			name := func(i int) string { return string(rune('a'+i%26)) + strings.Repeat("n", l-2) + string(rune('A'+i/26)) }
+			var big bytes.Buffer
+			big.WriteByte('{')
+			for i := 0; i < k; i++ {
+				if i > 0 {
+					big.WriteByte(',')
+				}
+				fmt.Fprintf(&big, `"%s":%d`, name(i), i)
+			}
+			big.WriteByte('}')
+			A := big.String()
+			for reuse := 0; reuse < k; reuse += max(1, k-1) { // first and last name
+				once := fmt.Sprintf(`{"%s":1}`, name(reuse))
+				twice := fmt.Sprintf(`{"%s":1,"x":2,"%s":3}`, name(reuse), name(reuse))
+				short := `{"x":1,"y":2}`
+				for _, B := range []string{once, twice, short, A} {
+					docs := []string{
+						"[" + A + "," + B + "]",
+						"[" + B + "," + A + "," + B + "]",
+						`{"p":` + A + `,"q":` + B + `}`,
+						`[[` + A + `],[` + B + `]]`,
+						A, B, // separate calls, one after the other
+					}
+					for _, doc := range docs {
+						d := []byte(doc)
+						c.prep(d)
+						for _, cf := range cfgs {
+							for _, op := range []int{0, 1, 3, 5} {
+								c.check(r, d, op, cf.c, cf.o)
+								r.Nontrivial.Add(1)
+							}
+						}
+					}
+				}
+			}
+			w.Beat()
+		}
+	})
+	r.Bound("sibling objects: objects of %v names of %d lengths in 100..1025 bytes followed by a sibling object (same depth; also a later separate call) using one of the names once / twice / not at all / all of them, in 6 document shapes x 4 configurations x 4 operations", counts, len(lens))
 }
